@@ -470,22 +470,26 @@ def wiring_rule(ctx, rep, prop):
     rep.check(rule, "call-sites-examined", n > 0, where="", what=f"{n} call sites into the property's modules examined for crossed arguments", nontrivial=False)
 
 
-def reachable_with_value(body, is_var, value, ty_hint=None):
-    """blocks reachable from the entry when every comparison `v OP const` / `const OP v` whose non-constant operand
-    satisfies is_var(expr) is decided for v = value (other branches stay open); used to evaluate a guard for sample
-    values instead of matching its spelling (`p > 100` vs `p >= 101`)."""
-    import pathsens
+def num_eval(assign):
+    """evaluator for pathsens: comparisons between the integer variables named by `assign` ([(is_var(expr) -> bool, value)]),
+    integer constants, and `Range/RangeInclusive::contains(&var)` with constant bounds are computed; anything else is open"""
+    def val_of(x):
+        if x[0] == "const" and isinstance(x[1], int) and not isinstance(x[1], bool):
+            return x[1]
+        if x[0] == "cast" and len(x) > 2:
+            return val_of(x[2]) if isinstance(x[2], tuple) else None
+        for is_var, v in assign:
+            if is_var(x):
+                return v
+        return None
 
-    def forced(b, bb):
-        t = b.term(bb)
-        if t["k"] != "switch" or t["discr_ty"] != "bool":
+    def ev(body, e):
+        if not isinstance(e, tuple) or not e:
             return None
-        e = flow.expr_of(b, t["discr"], bb)
-        neg = False
-        while e[0] == "un" and e[1] == "Not":
-            neg = not neg
-            e = e[2]
-        if e[0] == "call" and re.search(r"ops::Range(Inclusive)?::<Idx>::contains$|RangeInclusive<.*>::contains$|Range<.*>::contains$", e[1]) and len(e[2]) == 2 and is_var(e[2][1]):
+        if e[0] == "call" and re.search(r"ops::Range(Inclusive)?::<Idx>::contains$|RangeInclusive<.*>::contains$|Range<.*>::contains$", e[1]) and len(e[2]) == 2:
+            v = val_of(e[2][1])
+            if v is None:
+                return None
             r = e[2][0]
             lo = hi = None
             incl = "Inclusive" in e[1]
@@ -500,29 +504,93 @@ def reachable_with_value(body, is_var, value, ty_hint=None):
                 incl = True
             if lo is None:
                 return None
-            v = (lo <= value <= hi) if incl else (lo <= value < hi)
-            if neg:
-                v = not v
+            return (lo <= v <= hi) if incl else (lo <= v < hi)
+        if e[0] == "bin" and e[1] in ("Gt", "Ge", "Lt", "Le", "Eq", "Ne"):
+            a, c = val_of(e[2]), val_of(e[3])
+            if a is None or c is None:
+                return None
+            # at least one side must be a variable (constant folding of unrelated tests is not our business)
+            if e[2][0] == "const" and e[3][0] == "const":
+                return None
+            return {"Gt": a > c, "Ge": a >= c, "Lt": a < c, "Le": a <= c, "Eq": a == c, "Ne": a != c}[e[1]]
+        return None
+    return ev
+
+
+def reachable_eval(prog, body, ev, depth=2, actual=None, caller=None):
+    """blocks of `body` reachable when every bool condition that ev(body, expr) decides is fixed, bool locals are tracked
+    (pathsens), and a `?` on the Result of a crate-local helper is decided by evaluating the helper the same way with the
+    call's arguments substituted (Ok only -> continue edge, Err only -> break edge). `actual`/`caller`: when evaluating a
+    helper, its parameter paths are rewritten to the caller's argument expressions before ev sees them."""
+    import pathsens
+    top = caller or body
+
+    def ev2(b, e):
+        neg = False
+        while isinstance(e, tuple) and e and e[0] == "un" and e[1] == "Not":
+            neg = not neg
+            e = e[2]
+        if actual is not None:
+            e = flow.subst_args(e, actual)
+        v = ev(top, e)
+        return (v != neg) if isinstance(v, bool) else None
+
+    def forced(b, bb):
+        t = b.term(bb)
+        if t["k"] != "switch":
+            return None
+        e = flow.expr_of(b, t["discr"], bb)
+        if t["discr_ty"] == "bool":
+            v = ev2(b, e)
+            if v is None:
+                return None
             zero = [x for vv, x in t["targets"] if vv == "0"]
             return (t["otherwise"] if v else zero[0]) if zero else None
-        if e[0] != "bin" or e[1] not in ("Gt", "Ge", "Lt", "Le", "Eq", "Ne"):
-            return None
-        a, c = e[2], e[3]
-        op = e[1]
-        if a[0] == "const" and c[0] != "const":
-            a, c = c, a
-            op = {"Gt": "Lt", "Ge": "Le", "Lt": "Gt", "Le": "Ge", "Eq": "Eq", "Ne": "Ne"}[op]
-        if c[0] != "const" or not isinstance(c[1], int) or isinstance(c[1], bool) or not is_var(a):
-            return None
-        k = c[1]
-        v = {"Gt": value > k, "Ge": value >= k, "Lt": value < k, "Le": value <= k, "Eq": value == k, "Ne": value != k}[op]
-        if neg:
-            v = not v
-        zero = [x for vv, x in t["targets"] if vv == "0"]
-        if not zero:
-            return None
-        return t["otherwise"] if v else zero[0]
-    return pathsens.reachable_under(body, forced)
+        if depth > 0 and e[0] == "discr" and isinstance(e[1], tuple) and e[1][0] == "call" and e[1][1].endswith("ops::Try>::branch") and e[1][2] \
+                and isinstance(e[1][2][0], tuple) and e[1][2][0][0] == "call":
+            h = e[1][2][0]
+            H = prog.bodies.get(h[1])
+            if H is None or not h[1].startswith("rustic_core::") or not (H.locals and H.locals[0].startswith("std::result::Result")):
+                return None
+            args = [flow.subst_args(a, actual) if actual is not None else a for a in h[2]]
+            out = result_outcomes(prog, H, ev, depth - 1, args, top)
+            if out == {"Ok"}:
+                tg = [x for vv, x in t["targets"] if vv == "0"]
+                return tg[0] if tg else None
+            if out == {"Err"}:
+                tg = [x for vv, x in t["targets"] if vv == "1"]
+                return tg[0] if tg else t["otherwise"]
+        return None
+    return pathsens.reachable_under(body, forced, eval_expr=ev2)
+
+
+def result_outcomes(prog, H, ev, depth, actual, caller):
+    """{'Ok','Err'} subsets: how the Result-returning helper H can end when its conditions are decided by ev"""
+    reach = reachable_eval(prog, H, ev, depth, actual, caller)
+    out = set()
+    for bb in reach:
+        blk = H.blocks[bb]
+        for s_ in blk["s"]:
+            if s_[0] == "=" and s_[1] == [0]:
+                rv = s_[2]
+                if rv[0] == "agg" and rv[1][0] == "adt" and rv[1][1] == "std::result::Result":
+                    out.add(rv[1][2])
+                else:
+                    out |= {"Ok", "Err"}
+        t = blk["t"]
+        if t["k"] == "call" and t.get("dest") == [0]:
+            if "callee" in t and re.search(r"FromResidual<.*>>::from_residual$", callee(t)):
+                out.add("Err")
+            else:
+                out |= {"Ok", "Err"}
+    return out
+
+
+def reachable_with_value(body, is_var, value, ty_hint=None, prog=None):
+    """blocks reachable from the entry when every comparison `v OP const` / `const OP v` / constant-range `contains(&v)` whose
+    variable operand satisfies is_var(expr) is decided for v = value (other branches stay open); used to evaluate a guard for
+    sample values instead of matching its spelling (`p > 100` vs `p >= 101` vs `(1..100).contains(&p)`)."""
+    return reachable_eval(prog, body, num_eval([(is_var, value)]), depth=2 if prog is not None else 0)
 
 
 def simplify_proj(e):
